@@ -157,7 +157,13 @@ def config(tier, seed):
                 # three requests sharing one start block that creates two requested transactions
                 # (several outputs of the first plus one of the second, duplicates, ...)
                 dict(name="q2s", chains=[CH2S], cat=CAT2S[:5], best0s="{2}",
-                     MaxReq=3, MaxFail=0, AllowStop=False, FalsePos=False, free=1000)]
+                     MaxReq=3, MaxFail=0, AllowStop=False, FalsePos=False, free=1000),
+                # the tip grows by two (CH3 from height 1) and by three (CH5 from height 2) blocks, in every
+                # split over the passes of a scan; the first of the new blocks spends, later ones spend again
+                dict(name="q3g", chains=[CH3], cat=[(1, 0, 1), (1, 1, 1), (1, 1, 2), (2, 0, 2), (1, 0, 3)],
+                     best0s="{1}", MaxReq=2, MaxFail=0, AllowStop=False, FalsePos=False, free=500),
+                dict(name="q5g", chains=[CH5], cat=[(1, 0, 1), (1, 1, 1), (1, 1, 5), (2, 0, 4)],
+                     best0s="{2}", MaxReq=2, MaxFail=0, AllowStop=False, FalsePos=False, free=500)]
     rc, rcat = random_chain(rng, 4)
     return [
         dict(name="t3", chains=[CH3], cat=CAT3, best0s="{2, 3}", MaxReq=3, MaxFail=1,
@@ -170,6 +176,8 @@ def config(tier, seed):
              AllowStop=True, FalsePos=True, free=4000),
         dict(name="t5", chains=[CH5], cat=CAT5, best0s="{4, 5}", MaxReq=2, MaxFail=1,
              AllowStop=True, FalsePos=False, free=4000),
+        dict(name="t5g", chains=[CH5], cat=CAT5, best0s="{1, 2}", MaxReq=2, MaxFail=1,
+             AllowStop=False, FalsePos=False, free=3000),
         dict(name="rnd", chains=[rc], cat=rcat, best0s="{3, 4}", MaxReq=2, MaxFail=1,
              AllowStop=True, FalsePos=False, free=3000),
     ]
